@@ -93,6 +93,16 @@ func exec(script []string, opt comp.Options) comp.Result {
 	var jobs []*job
 	var calls []*call
 	var gates []hook.Gate
+	var gateOpen []bool
+	closedGates := func() int {
+		n := 0
+		for _, o := range gateOpen {
+			if !o {
+				n++
+			}
+		}
+		return n
+	}
 	var wg sync.WaitGroup
 	limit := 0
 
@@ -181,7 +191,8 @@ func exec(script []string, opt comp.Options) comp.Result {
 			}
 			id := log.Inv("enqueue %s", names)
 			newCall(id, func() {}, nil)
-			if f[0] == "enqueue" && len(gates) == 0 {
+			// with a closed gate the director must not risk being held at it itself
+			if f[0] == "enqueue" && closedGates() == 0 {
 				doEnqueue(id, fns)
 			} else {
 				wg.Add(1)
@@ -303,6 +314,7 @@ func exec(script []string, opt comp.Options) comp.Result {
 				continue
 			}
 			gates = append(gates, h.AddGate(f[1], nil, n))
+			gateOpen = append(gateOpen, false)
 			tags.Add("gate")
 		case "open":
 			if len(f) < 2 {
@@ -313,12 +325,14 @@ func exec(script []string, opt comp.Options) comp.Result {
 				continue
 			}
 			gates[g].Open()
+			gateOpen[g] = true
 		case "settle":
 			comp.WaitQuiet(log, 2*time.Millisecond, 200*time.Millisecond)
 		case "quiesce":
 			// a goroutine held at a gate is not quiescent: open all gates first
-			for _, g := range gates {
+			for i, g := range gates {
 				g.Open()
+				gateOpen[i] = true
 			}
 			comp.WaitQuiet(log, opt.Grace, 10*opt.Grace)
 			log.With(func(pending []int) []string {
